@@ -1192,12 +1192,16 @@ where
         if safe.active_blob.is_none() {
             Err(Error::active_blob_doesnt_exist().into())
         } else {
+            // Sync while the blob is still the active one: if the sync fails (or this future is dropped
+            // while waiting for it), the blob must not be lost
+            if let Some(ablob) = safe.active_blob.as_ref() {
+                ablob.read().await.fsyncdata().await?;
+            }
             // always true
             if let Some(ablob) = safe.active_blob.take() {
                 let ablob = (*ablob).into_inner();
                 #[cfg(pearl_verif)]
                 let verif_id = ablob.id() as u64;
-                ablob.fsyncdata().await?;
                 safe.blobs.write().await.push(ablob).await;
                 #[cfg(pearl_verif)]
                 crate::verif::event("active_closed", &[("blob", verif_id)], None);
